@@ -3,8 +3,11 @@ package props
 import (
 	"crypto/ed25519"
 	"fmt"
+	"strings"
+	"time"
 
 	biscuit "github.com/biscuit-auth/biscuit-go/v2"
+	"github.com/biscuit-auth/biscuit-go/v2/datalog"
 
 	"verif/harness/ast"
 	"verif/harness/core"
@@ -170,8 +173,6 @@ func c02Dangling(c *core.C, tok *lib.Token, a ast.AuthContent) {
 	if target == nil {
 		return
 	}
-	v3 := uint32(3)
-	ctx := ""
 	tab := &wire.Table{}
 	for _, wb := range d.WBlocks {
 		tab.Syms = append(tab.Syms, wb.Symbols...)
@@ -203,7 +204,24 @@ func c02Dangling(c *core.C, tok *lib.Token, a ast.AuthContent) {
 		}
 	}
 	q.Name = tab2.Intern(target.Name, &added2)
-	b1 := &wire.Block{Symbols: added2, Context: &ctx, Version: &v3, Checks: []wire.Check{{{Head: wire.Pred{Name: 27}, Body: []wire.Pred{q}}}}}
+	// variants of B1's symbol table: exact; with an extra entry that does NOT extend the token's
+	// table (a default name, or a name an earlier block already declared) - such an entry must
+	// not let B1 see one more symbol of the next block
+	variants := map[string][]string{"": added2, "+default-name": append(append([]string{}, added2...), "read")}
+	if len(tab.Syms) > 0 {
+		variants["+redeclared-name"] = append(append([]string{}, added2...), tab.Syms[0])
+	}
+	for _, vn := range []string{"", "+default-name", "+redeclared-name"} {
+		if syms, ok := variants[vn]; ok {
+			c02DanglingVariant(c, tok, a, d, vn, syms, q, *target, pos)
+		}
+	}
+}
+
+func c02DanglingVariant(c *core.C, tok *lib.Token, a ast.AuthContent, d *wire.Decoded, variant string, b1syms []string, q wire.Pred, target ast.Pred, pos int) {
+	v3 := uint32(3)
+	ctx := ""
+	b1 := &wire.Block{Symbols: b1syms, Context: &ctx, Version: &v3, Checks: []wire.Check{{{Head: wire.Pred{Name: 27}, Body: []wire.Pred{q}}}}}
 	b2 := &wire.Block{Symbols: []string{target.Terms[pos].S}, Context: &ctx, Version: &v3}
 	secret := ed25519.NewKeyFromSeed(d.Env.Proof)
 	p1, s1 := lib.KeyPair(c.Seed, fmt.Sprintf("c02-dang1-%d", c.Idx))
@@ -220,7 +238,7 @@ func c02Dangling(c *core.C, tok *lib.Token, a ast.AuthContent) {
 		pt, e1 = biscuit.Unmarshal(parentEnv.Encode())
 		ct, e2 = biscuit.Unmarshal(childEnv.Encode())
 	})
-	desc := map[string]any{"source": "raw-dangling-symbol-completed-by-child", "token": gen.Texts(tok.Blocks), "authorizer": gen.AuthTexts(a), "dangling_check_on": target.Key(), "completed_symbol": target.Terms[pos].S}
+	desc := map[string]any{"source": "raw-dangling-symbol-completed-by-child" + variant, "token": gen.Texts(tok.Blocks), "authorizer": gen.AuthTexts(a), "dangling_check_on": target.Key(), "completed_symbol": target.Terms[pos].S, "parent_last_block_symbols": b1syms}
 	if pi != nil {
 		c.Violate("unmarshal-panic/"+pi.Site, pi.Msg, desc)
 		return
@@ -233,10 +251,10 @@ func c02Dangling(c *core.C, tok *lib.Token, a ast.AuthContent) {
 	po := c02Observe(pt, tok.Pub, a)
 	co := c02Observe(ct, tok.Pub, a)
 	desc["parent"], desc["child"] = po, co
-	c.Count("raw_child_loaded:raw-dangling-symbol-completed-by-child", 1)
+	c.Count("raw_child_loaded:raw-dangling-symbol-completed-by-child"+variant, 1)
 	c.Count("dangling_parent_"+string(po.Class), 1)
 	if po.Class != lib.OK && po.Class != lib.LIMIT && (co.Class == lib.OK || co.Second == lib.OK) {
-		c.Violate("attenuation-widened/raw-dangling-symbol-completed-by-child", fmt.Sprintf("parent with a dangling symbol index is refused (%s); appending a block that only declares the missing symbol makes it accepted", po.Class), desc)
+		c.Violate("attenuation-widened/raw-dangling-symbol-completed-by-child"+variant, fmt.Sprintf("parent with a dangling symbol index is refused (%s); appending a block that only declares the missing symbol makes it accepted", po.Class), desc)
 	}
 	if po.Class != lib.OK {
 		c.NT(core.JSON(desc))
@@ -244,9 +262,10 @@ func c02Dangling(c *core.C, tok *lib.Token, a ast.AuthContent) {
 }
 
 type c02Obs struct {
-	Class  lib.Class `json:"class"`
-	Second lib.Class `json:"second_authorize"`
-	Err    string    `json:"err,omitempty"`
+	Class      lib.Class `json:"class"`
+	Second     lib.Class `json:"second_authorize"`
+	AfterQuery lib.Class `json:"authorize_after_query"`
+	Err        string    `json:"err,omitempty"`
 }
 
 func c02Observe(b *biscuit.Biscuit, pub ed25519.PublicKey, a ast.AuthContent) c02Obs {
@@ -264,6 +283,15 @@ func c02Observe(b *biscuit.Biscuit, pub ed25519.PublicKey, a ast.AuthContent) c0
 			o.Err = core.Head(err.Error(), 200)
 		}
 		o.Second = lib.Classify(az.Authorize())
+		// the same request on a fresh authorizer, but with a Query before Authorize
+		az2, err := b.AuthorizerFor(biscuit.WithSingularRootPublicKey(pub), lib.BigLimits())
+		if err == nil {
+			lib.AddContent(az2, a)
+			for _, q := range c02Probes(a) {
+				_, _ = az2.Query(q.Lib())
+			}
+			o.AfterQuery = lib.Classify(az2.Authorize())
+		}
 	})
 	if pi != nil {
 		o.Class = lib.PANIC
@@ -272,7 +300,104 @@ func c02Observe(b *biscuit.Biscuit, pub ed25519.PublicKey, a ast.AuthContent) c0
 	return o
 }
 
+// c02Probes: queries a caller might run before authorizing (one per policy / check body atom).
+func c02Probes(a ast.AuthContent) []ast.Rule {
+	out := []ast.Rule{{Head: ast.P("probe_any", ast.Var("x")), Body: []ast.Pred{ast.P("resource", ast.Var("x"))}}}
+	for _, p := range askedAtoms(nil, a) {
+		if len(out) >= 3 {
+			break
+		}
+		out = append(out, ast.Rule{Head: ast.P("probe_asked"), Body: []ast.Pred{p}})
+	}
+	return out
+}
+
+// c02LimitRefusal: the parent is refused because its LAST block exceeds a deterministic run limit
+// (fact count or iteration count, never a clock); appending a harmless block must not make it
+// accepted.
+func c02LimitRefusal(c *core.C) {
+	r := c.R
+	n := 6 + r.Intn(6)
+	kind := []string{"max-facts", "max-iterations"}[r.Intn(2)]
+	heavy := ast.Block{Rules: []ast.Rule{{Head: ast.P("pair", vX, vY), Body: []ast.Pred{ast.P("p", vX), ast.P("p", vY)}}}}
+	opt := biscuit.WithWorldOptions(datalog.WithMaxFacts(n+n*n/2), datalog.WithMaxIterations(1000), datalog.WithMaxDuration(60*time.Second))
+	if kind == "max-iterations" {
+		_, rules := ruleChainProg(12)
+		heavy = ast.Block{Facts: []ast.Pred{ast.P("step0")}, Rules: rules}
+		opt = biscuit.WithWorldOptions(datalog.WithMaxFacts(100000), datalog.WithMaxIterations(5), datalog.WithMaxDuration(60*time.Second))
+	}
+	blocks := []ast.Block{{Facts: factsP(n)}}
+	for k, m := 0, r.Intn(2); k < m; k++ {
+		blocks = append(blocks, ast.Block{Facts: []ast.Pred{ast.P("note", ast.Int(int64(k)))}})
+	}
+	blocks = append(blocks, heavy)
+	parent, err := buildScenarioToken(c.Seed, fmt.Sprintf("c02-lim-%d", c.Idx), blocks)
+	if err != nil {
+		c.Violate("build-refused", err.Error(), nil)
+		return
+	}
+	harmless := []ast.Block{
+		{Facts: []ast.Pred{ast.P("harmless", ast.Int(1))}},
+		{Checks: []ast.Check{{Queries: []ast.Rule{{Head: ast.P("query"), Exprs: []ast.Expr{{ast.OV(ast.Bool(true))}}}}}}},
+		{},
+	}
+	obs := func(t *lib.Token) (lib.Class, string) {
+		var cl lib.Class
+		var es string
+		pi := lib.Try(func() {
+			a, err := t.B.AuthorizerFor(biscuit.WithSingularRootPublicKey(t.Pub), opt)
+			if err != nil {
+				cl, es = lib.FAIL, err.Error()
+				return
+			}
+			a.AddPolicy(allowAll.Lib())
+			err = a.Authorize()
+			cl = lib.Classify(err)
+			if err != nil {
+				es = err.Error()
+			}
+		})
+		if pi != nil {
+			cl, es = lib.PANIC, pi.Msg
+		}
+		return cl, es
+	}
+	pc, pe := obs(parent)
+	c.Eval(1)
+	if strings.Contains(pe, "timeout") {
+		c.Inconc("timeout under a 60 s deadline")
+		return
+	}
+	c.Count("limit_parent_"+string(pc), 1)
+	rng := lib.NewDetRand(c.Seed, fmt.Sprintf("c02-lim-rng-%d", c.Idx))
+	for _, h := range harmless {
+		child, err := parent.Append(rng, h)
+		if err != nil {
+			continue
+		}
+		if r.Intn(2) == 0 {
+			if t2, err := child.Reload(); err == nil {
+				child = t2
+			}
+		}
+		cc, ce := obs(child)
+		c.Eval(1)
+		desc := map[string]any{"source": "limit-refusal/" + kind, "token": gen.Texts(parent.Blocks), "appended": gen.Texts([]ast.Block{h})[0], "parent": pc, "parent_error": pe, "child": cc, "child_error": ce}
+		if pc != lib.OK && cc == lib.OK {
+			c.Violate("attenuation-widened/limit-refusal-"+kind, fmt.Sprintf("the parent is refused by a run limit (%s); appending a harmless block makes it accepted", pe), desc)
+		}
+		if pc == lib.LIMIT {
+			c.NT(core.JSON(desc))
+			c.Count("limit_refusal_pairs", 1)
+		}
+	}
+}
+
 func c02Run(c *core.C) {
+	if c.Idx%10 == 9 {
+		c02LimitRefusal(c)
+		return
+	}
 	r := c.R
 	for rep := 0; rep < 4; rep++ {
 		s := gen.NewScenario(r, 3, scenOpts)
@@ -315,6 +440,9 @@ func c02Run(c *core.C) {
 				c.Count("child_"+string(child.Class), 1)
 				if parent.Class != lib.OK && (child.Class == lib.OK || child.Second == lib.OK) {
 					c.Violate("attenuation-widened/"+kind, fmt.Sprintf("parent is refused (%s) but the attenuated token is accepted", parent.Class), desc)
+				}
+				if parent.AfterQuery != lib.OK && parent.AfterQuery != lib.LIMIT && parent.AfterQuery != "" && child.AfterQuery == lib.OK {
+					c.Violate("attenuation-widened-after-query/"+kind, fmt.Sprintf("with a Query before Authorize the parent is refused (%s) but the attenuated token is accepted", parent.AfterQuery), desc)
 				}
 				if parent.Class != lib.OK && targeted {
 					c.Count("nontrivial_pairs", 1)
@@ -395,6 +523,7 @@ func c03Run(c *core.C) {
 			continue
 		}
 		without := lib.Observe(base.B, base.Pub, a, s.Probes)
+		withoutAfterQuery := c02Observe(base.B, base.Pub, a).AfterQuery
 		c.Eval(1)
 		if without.Class == lib.LIMIT || without.Class == lib.PANIC {
 			c.Inconc("base outcome " + string(without.Class))
@@ -402,6 +531,11 @@ func c03Run(c *core.C) {
 		}
 		for k := 0; k < 3; k++ {
 			free, _ := adversarialBlock(r, s.U, base.Blocks, a, false)
+			if len(free.Rules) > 0 && k == 1 {
+				// a block that only carries rules: what it derives must stay its own as well
+				free.Facts = nil
+				c.Count("rule_only_blocks", 1)
+			}
 			if len(free.Facts)+len(free.Rules) == 0 {
 				continue
 			}
@@ -435,6 +569,10 @@ func c03Run(c *core.C) {
 					c.Violate("check-free-block-changes-outcome", fmt.Sprintf("outcome %s without the block, %s with it (position %d)", without.Class, with.Class, p), desc)
 				} else if core.JSON(with.Queries) != core.JSON(without.Queries) {
 					c.Violate("check-free-block-changes-query-results", fmt.Sprintf("authorizer query results differ with a check-free block at position %d", p), desc)
+				}
+				// the same comparison with the queries run BEFORE Authorize
+				if wq, woq := c02Observe(tok.B, tok.Pub, a).AfterQuery, withoutAfterQuery; wq != woq && wq != lib.LIMIT && woq != lib.LIMIT {
+					c.Violate("check-free-block-changes-outcome-after-query", fmt.Sprintf("with a Query before Authorize: outcome %s without the block, %s with it (position %d)", woq, wq, p), desc)
 				}
 				if sensitive {
 					c.Count("leak_sensitive_pairs", 1)
@@ -489,8 +627,14 @@ func init() {
 		Run: c02Run,
 		Floor: func(a *core.Agg) []string {
 			u := []string{}
-			if a.Cnt["nontrivial_pairs"] < 1500 {
-				u = append(u, fmt.Sprintf("non-trivial pairs %d < 1500", a.Cnt["nontrivial_pairs"]))
+			if a.Cnt["nontrivial_pairs"] < 1200 {
+				u = append(u, fmt.Sprintf("non-trivial pairs %d < 1200", a.Cnt["nontrivial_pairs"]))
+			}
+			if a.Cnt["limit_refusal_pairs"] < 30 {
+				u = append(u, fmt.Sprintf("limit-refusal pairs %d < 30", a.Cnt["limit_refusal_pairs"]))
+			}
+			if a.Cnt["raw_child_loaded:raw-dangling-symbol-completed-by-child"] < 20 {
+				u = append(u, "dangling-symbol pairs < 20")
 			}
 			for _, cl := range []string{"raw-plain-fact", "raw-wildcard-fact", "raw-foreign-symbol-indexes"} {
 				if a.Cnt["raw_child_loaded:"+cl] == 0 {
